@@ -41,6 +41,22 @@ Proof.
   intros H; inversion H; subst; reflexivity.
 Qed.
 
+Lemma pow2_exp_eq t k : pow2_exp t = Some k -> t = TConst (2 ^ k) /\ 0 <= k < 256.
+Proof.
+  destruct t as [c| | | | | | | | | | | | | | | ]; simpl; try discriminate.
+  destruct ((0 <? c) && (c =? 2 ^ Z.log2 c) && (Z.log2 c <? 256)) eqn:G; [|discriminate].
+  intros H; inversion H; subst k. apply andb_true_iff in G. destruct G as [G G3].
+  apply andb_true_iff in G. destruct G as [G1 G2]. apply Z.ltb_lt in G1, G3. apply Z.eqb_eq in G2.
+  split; [f_equal; exact G2|]. split; [apply Z.log2_nonneg|exact G3].
+Qed.
+
+Lemma first_some_in {A} (l : list (option A)) x : first_some l = Some x -> In (Some x) l.
+Proof.
+  induction l as [|o l IH]; [discriminate|]. destruct o as [y|]; cbn [first_some].
+  - intros H; inversion H; subst. left; reflexivity.
+  - intros H. right. apply IH. exact H.
+Qed.
+
 Section Norm.
   Variable r : rho.
   Hypothesis Hr : wf_rho r.
@@ -142,6 +158,10 @@ Section Norm.
   Lemma s_mul_ok a b : wsort a = true -> wsort b = true -> ok (s_mul a b) (eval_op2 MUL (ev a) (ev b)).
   Proof.
     start2 s_mul. brk; facts; [by_lemma mul_0_l|]. brk; facts; [by_lemma mul_1_l|].
+    destruct (pow2_exp a) as [k|] eqn:Pa.
+    { apply pow2_exp_eq in Pa. destruct Pa as [-> Hk]. unfold ok. cbn [wsort evalw eval_op2]. rewrite Hb.
+      split; [|symmetry; apply mul_pow2; exact Hk].
+      rewrite andb_true_r. apply inw_constw. unfold inw. assert (256 < W) by (unfold W; apply (Z.pow_lt_mono_r 2 8 256); lia). lia. }
     destruct (shl_one b) as [y|] eqn:Sb.
     - apply shl_one_eq in Sb. subst b. cbn [wsort] in Hb. apply andb_true_iff in Hb. destruct Hb as [Hy _].
       unfold ok. cbn [wsort evalw eval_op2]. rewrite Hy, Ha. split; [reflexivity|].
@@ -159,6 +179,10 @@ Section Norm.
   Proof.
     start2 s_div. brk; facts; [by_lemma div_1_r|]. brk; facts; [by_lemma div_0_r|].
     brk; facts; [by_lemma div_0_l|].
+    destruct (pow2_exp b) as [k|] eqn:Pb.
+    { apply pow2_exp_eq in Pb. destruct Pb as [-> Hk]. unfold ok. cbn [wsort evalw eval_op2]. rewrite Ha.
+      split; [|symmetry; apply div_pow2; exact Hk].
+      rewrite andb_true_r. apply inw_constw. unfold inw. assert (256 < W) by (unfold W; apply (Z.pow_lt_mono_r 2 8 256); lia). lia. }
     destruct (shl_one b) as [y|] eqn:Sb; [|dflt].
     apply shl_one_eq in Sb. subst b. cbn [wsort] in Hb. apply andb_true_iff in Hb. destruct Hb as [Hy _].
     unfold ok. cbn [wsort evalw eval_op2]. rewrite Hy, Ha. split; [reflexivity|].
@@ -235,12 +259,96 @@ Section Norm.
   Proof.
     intros Ho. start2 s_shift. brk; facts.
     { destruct Ho as [->|[->| ->]]; [by_lemma shl_0_l|by_lemma shr_0_l|by_lemma sar_0_l]. }
-    brk; facts; [|dflt].
-    destruct Ho as [->|[->| ->]]; [by_lemma shl_x_0|by_lemma shr_x_0|by_lemma sar_x_0].
+    brk; facts.
+    { destruct Ho as [->|[->| ->]]; [by_lemma shl_x_0|by_lemma shr_x_0|by_lemma sar_x_0]. }
+    brk; [|dflt]. facts.
+    destruct a as [c| | | | | | | | | | | | | | | ]; try discriminate.
+    match goal with H : big_shift (TConst c) = true |- _ => cbn [big_shift] in H; apply Z.leb_le in H end.
+    destruct Ho as [->|[->| ->]].
+    - unfold ok. split; [reflexivity|]. cbn [evalw eval_op2]. symmetry. apply shl_big. assumption.
+    - unfold ok. split; [reflexivity|]. cbn [evalw eval_op2]. symmetry. apply shr_big. assumption.
+    - match goal with H : negb (op2_eqb SAR SAR) = true |- _ => discriminate H end.
   Qed.
 
   Ltac sorts := cbn [wsort] in *;
     repeat match goal with H : _ && _ = true |- _ => apply andb_true_iff in H; destruct H end.
+
+  (* --- AND ------------------------------------------------------------------- *)
+  Definition rule_ok (o : op2) (rl : term -> term -> option term) : Prop :=
+    forall a b t, wsort a = true -> wsort b = true -> rl a b = Some t -> ok t (eval_op2 o (ev a) (ev b)).
+
+  Lemma ra_const_shl_ok : rule_ok AND ra_const_shl.
+  Proof.
+    intros a b t Ha Hb. unfold ra_const_shl.
+    destruct (and_const_shl_view a b) as [[[c s] y]|] eqn:V; [|discriminate]. intros H; inversion H; subst t. clear H.
+    unfold and_const_shl_view in V.
+    destruct a as [c0| | | | | | | | | | | | | | | ]; try discriminate V.
+    destruct b as [| | | | | |o0 b1 b2| | | | | | | | | ]; try discriminate V.
+    destruct o0; try discriminate V.
+    destruct b1 as [s0| | | | | | | | | | | | | | | ]; try discriminate V.
+    destruct ((0 <=? s0) && (s0 <? 256)) eqn:G; [|discriminate V]. inversion V; subst c0 s0 b2. clear V.
+    apply andb_true_iff in G. destruct G as [G1 G2]. apply Z.leb_le in G1. apply Z.ltb_lt in G2.
+    sorts.
+    assert (Wc : inw c) by (apply constw_inw; assumption).
+    assert (Ws : constw (wshr s c) = true).
+    { apply inw_constw. apply wshr_range; [exact Wc|lia]. }
+    destruct (mk2_ok AND (TConst (wshr s c)) y Ws) as [S5 E5]; [assumption|].
+    unfold ok. cbn [wsort evalw eval_op2]. rewrite S5, E5.
+    split; [match goal with H : constw s = true |- _ => rewrite H end; reflexivity|].
+    cbn [evalw eval_op2]. symmetry. apply and_const_shl. lia.
+  Qed.
+
+  Lemma ra_and_r_ok : rule_ok AND ra_and_r.
+  Proof.
+    intros a b t Ha Hb. unfold ra_and_r. destruct (inner AND b) as [[x y]|] eqn:I; [|discriminate].
+    destruct (among a (x, y)) eqn:E; [|discriminate]. intros H; inversion H; subst t.
+    apply inner_eq in I. subst b. apply among_cases in E. cbn [fst snd] in E.
+    split; [exact Hb|]. cbn [evalw eval_op2]. destruct E; subst; symmetry; [apply and_and_absorb|apply and_and_absorb_r].
+  Qed.
+  Lemma ra_and_l_ok : rule_ok AND ra_and_l.
+  Proof.
+    intros a b t Ha Hb. unfold ra_and_l. destruct (inner AND a) as [[x y]|] eqn:I; [|discriminate].
+    destruct (among b (x, y)) eqn:E; [|discriminate]. intros H; inversion H; subst t.
+    apply inner_eq in I. subst a. apply among_cases in E. cbn [fst snd] in E.
+    split; [exact Ha|]. cbn [evalw eval_op2]. rewrite (and_comm (wand (ev x) (ev y))).
+    destruct E; subst; symmetry; [apply and_and_absorb|apply and_and_absorb_r].
+  Qed.
+  Lemma ra_or_r_ok : rule_ok AND ra_or_r.
+  Proof.
+    intros a b t Ha Hb. unfold ra_or_r. destruct (inner OR b) as [[x y]|] eqn:I; [|discriminate].
+    destruct (among a (x, y)) eqn:E; [|discriminate]. intros H; inversion H; subst t.
+    apply inner_eq in I. subst b. apply among_cases in E. cbn [fst snd] in E.
+    split; [exact Ha|]. cbn [evalw eval_op2]. destruct E; subst; symmetry; [apply and_or_absorb|apply and_or_absorb_r].
+  Qed.
+  Lemma ra_or_l_ok : rule_ok AND ra_or_l.
+  Proof.
+    intros a b t Ha Hb. unfold ra_or_l. destruct (inner OR a) as [[x y]|] eqn:I; [|discriminate].
+    destruct (among b (x, y)) eqn:E; [|discriminate]. intros H; inversion H; subst t.
+    apply inner_eq in I. subst a. apply among_cases in E. cbn [fst snd] in E.
+    split; [exact Hb|]. cbn [evalw eval_op2]. rewrite (and_comm (wor (ev x) (ev y))).
+    destruct E; subst; symmetry; [apply and_or_absorb|apply and_or_absorb_r].
+  Qed.
+
+  Lemma ra_shl_shl_ok : rule_ok AND ra_shl_shl.
+  Proof.
+    intros a b t Ha Hb. unfold ra_shl_shl.
+    destruct (inner SHL a) as [[s y]|] eqn:I5; [|discriminate].
+    destruct (inner SHL b) as [[s' z]|] eqn:I6; [|discriminate].
+    destruct (term_eqb s s') eqn:E; [|discriminate]. intros H; inversion H; subst t. clear H.
+    apply term_eqb_eq in E. subst s'. apply inner_eq in I5. apply inner_eq in I6. subst a b. sorts.
+    destruct (mk2_ok AND y z) as [S E5]; try assumption.
+    unfold ok. cbn [wsort evalw eval_op2]. rewrite S, E5.
+    split; [match goal with H : wsort s = true |- _ => rewrite H end; reflexivity|].
+    cbn [eval_op2]. symmetry. apply and_shl_shl. apply inw_ev. assumption.
+  Qed.
+
+  Lemma first_rule_ok o (rules : list (term -> term -> option term)) a b t :
+    Forall (rule_ok o) rules -> wsort a = true -> wsort b = true ->
+    first_some (map (fun rl => rl a b) rules) = Some t -> ok t (eval_op2 o (ev a) (ev b)).
+  Proof.
+    intros HF Ha Hb H. apply first_some_in in H. apply in_map_iff in H. destruct H as (rl & E & Hin).
+    rewrite Forall_forall in HF. exact (HF rl Hin a b t Ha Hb E).
+  Qed.
 
   Lemma s_and_ok a b : wsort a = true -> wsort b = true -> ok (s_and a b) (eval_op2 AND (ev a) (ev b)).
   Proof.
@@ -252,43 +360,44 @@ Section Norm.
     { apply orb_true_iff in E3. destruct E3 as [E3|E3]; facts.
       - unfold ok. split; [reflexivity|]. cbn [evalw eval_op1 eval_op2]. symmetry. apply and_not_self. exact Wa.
       - unfold ok. split; [reflexivity|]. cbn [evalw eval_op1 eval_op2]. symmetry. rewrite and_comm. apply and_not_self. exact Wb. }
-    destruct (and_const_shl_view a b) as [[[c s] y]|] eqn:V.
-    { unfold and_const_shl_view in V.
-      destruct a as [c0| | | | | | | | | | | | | | | ]; try discriminate V.
-      destruct b as [| | | | | |o0 b1 b2| | | | | | | | | ]; try discriminate V.
-      destruct o0; try discriminate V.
-      destruct b1 as [s0| | | | | | | | | | | | | | | ]; try discriminate V.
-      destruct ((0 <=? s0) && (s0 <? 256)) eqn:G; [|discriminate V]. inversion V; subst c0 s0 b2. clear V.
-      apply andb_true_iff in G. destruct G as [G1 G2]. apply Z.leb_le in G1. apply Z.ltb_lt in G2.
-      sorts.
-      assert (Wc : inw c) by (apply constw_inw; assumption).
-      assert (Ws : constw (wshr s c) = true).
-      { apply inw_constw. apply wshr_range; [exact Wc|lia]. }
-      destruct (mk2_ok AND (TConst (wshr s c)) y Ws) as [S5 E5]; [assumption|].
-      unfold ok. cbn [wsort evalw eval_op2]. rewrite S5, E5.
-      split; [match goal with H : constw s = true |- _ => rewrite H end; reflexivity|].
-      cbn [evalw eval_op2]. symmetry. apply and_const_shl. lia. }
-    destruct (inner AND b) as [[x y]|] eqn:I1.
-    { brk; [|dflt]. apply inner_eq in I1. subst b. apply among_cases in E4. cbn [fst snd] in E4.
-      split; [exact Hb|]. cbn [evalw eval_op2]. destruct E4; subst; symmetry; [apply and_and_absorb|apply and_and_absorb_r]. }
-    destruct (inner AND a) as [[x y]|] eqn:I2.
-    { brk; [|dflt]. apply inner_eq in I2. subst a. apply among_cases in E4. cbn [fst snd] in E4.
-      split; [exact Ha|]. cbn [evalw eval_op2]. rewrite (and_comm (wand (ev x) (ev y))).
-      destruct E4; subst; symmetry; [apply and_and_absorb|apply and_and_absorb_r]. }
-    destruct (inner OR b) as [[x y]|] eqn:I3.
-    { brk; [|dflt]. apply inner_eq in I3. subst b. apply among_cases in E4. cbn [fst snd] in E4.
-      split; [exact Ha|]. cbn [evalw eval_op2]. destruct E4; subst; symmetry; [apply and_or_absorb|apply and_or_absorb_r]. }
-    destruct (inner OR a) as [[x y]|] eqn:I4.
-    { brk; [|dflt]. apply inner_eq in I4. subst a. apply among_cases in E4. cbn [fst snd] in E4.
-      split; [exact Hb|]. cbn [evalw eval_op2]. rewrite (and_comm (wor (ev x) (ev y))).
-      destruct E4; subst; symmetry; [apply and_or_absorb|apply and_or_absorb_r]. }
-    destruct (inner SHL a) as [[s y]|] eqn:I5; [|dflt].
-    destruct (inner SHL b) as [[s' z]|] eqn:I6; [|dflt].
-    brk; [|dflt]. facts. apply inner_eq in I5. apply inner_eq in I6. subst a b. sorts.
-    destruct (mk2_ok AND y z) as [S E5]; try assumption.
-    unfold ok. cbn [wsort evalw eval_op2]. rewrite S, E5.
-    split; [match goal with H : wsort s' = true |- _ => rewrite H end; reflexivity|].
-    cbn [eval_op2]. symmetry. apply and_shl_shl. apply inw_ev. assumption.
+    change [ra_const_shl a b; ra_and_r a b; ra_and_l a b; ra_or_r a b; ra_or_l a b; ra_shl_shl a b]
+      with (map (fun rl => rl a b) [ra_const_shl; ra_and_r; ra_and_l; ra_or_r; ra_or_l; ra_shl_shl]).
+    destruct (first_some _) as [t|] eqn:F; [|dflt].
+    apply (first_rule_ok AND [ra_const_shl; ra_and_r; ra_and_l; ra_or_r; ra_or_l; ra_shl_shl] a b t); try assumption.
+    repeat (apply Forall_cons; [first [apply ra_const_shl_ok|apply ra_and_r_ok|apply ra_and_l_ok|apply ra_or_r_ok|apply ra_or_l_ok|apply ra_shl_shl_ok]|]).
+    apply Forall_nil.
+  Qed.
+
+  (* --- OR -------------------------------------------------------------------- *)
+  Lemma ro_and_r_ok : rule_ok OR ro_and_r.
+  Proof.
+    intros a b t Ha Hb. unfold ro_and_r. destruct (inner AND b) as [[x y]|] eqn:I; [|discriminate].
+    destruct (among a (x, y)) eqn:E; [|discriminate]. intros H; inversion H; subst t.
+    apply inner_eq in I. subst b. apply among_cases in E. cbn [fst snd] in E.
+    split; [exact Ha|]. cbn [evalw eval_op2]. destruct E; subst; symmetry; [apply or_and_absorb|apply or_and_absorb_r].
+  Qed.
+  Lemma ro_and_l_ok : rule_ok OR ro_and_l.
+  Proof.
+    intros a b t Ha Hb. unfold ro_and_l. destruct (inner AND a) as [[x y]|] eqn:I; [|discriminate].
+    destruct (among b (x, y)) eqn:E; [|discriminate]. intros H; inversion H; subst t.
+    apply inner_eq in I. subst a. apply among_cases in E. cbn [fst snd] in E.
+    split; [exact Hb|]. cbn [evalw eval_op2]. rewrite (or_comm (wand (ev x) (ev y))).
+    destruct E; subst; symmetry; [apply or_and_absorb|apply or_and_absorb_r].
+  Qed.
+  Lemma ro_or_r_ok : rule_ok OR ro_or_r.
+  Proof.
+    intros a b t Ha Hb. unfold ro_or_r. destruct (inner OR b) as [[x y]|] eqn:I; [|discriminate].
+    destruct (among a (x, y)) eqn:E; [|discriminate]. intros H; inversion H; subst t.
+    apply inner_eq in I. subst b. apply among_cases in E. cbn [fst snd] in E.
+    split; [exact Hb|]. cbn [evalw eval_op2]. destruct E; subst; symmetry; [apply or_or_absorb_l|apply or_or_absorb_r].
+  Qed.
+  Lemma ro_or_l_ok : rule_ok OR ro_or_l.
+  Proof.
+    intros a b t Ha Hb. unfold ro_or_l. destruct (inner OR a) as [[x y]|] eqn:I; [|discriminate].
+    destruct (among b (x, y)) eqn:E; [|discriminate]. intros H; inversion H; subst t.
+    apply inner_eq in I. subst a. apply among_cases in E. cbn [fst snd] in E.
+    split; [exact Ha|]. cbn [evalw eval_op2]. rewrite (or_comm (wor (ev x) (ev y))).
+    destruct E; subst; symmetry; [apply or_or_absorb_l|apply or_or_absorb_r].
   Qed.
 
   Lemma s_or_ok a b : wsort a = true -> wsort b = true -> ok (s_or a b) (eval_op2 OR (ev a) (ev b)).
@@ -300,33 +409,43 @@ Section Norm.
         cbn [evalw eval_op1 eval_op2]. symmetry. apply or_not_self. exact Wa.
       - unfold ok. split; [apply inw_constw; pose proof W_pos; unfold inw; lia|].
         cbn [evalw eval_op1 eval_op2]. symmetry. rewrite or_comm. apply or_not_self. exact Wb. }
-    destruct (inner AND b) as [[x y]|] eqn:I1.
-    { brk; [|dflt]. apply inner_eq in I1. subst b. apply among_cases in E2. cbn [fst snd] in E2.
-      split; [exact Ha|]. cbn [evalw eval_op2]. destruct E2; subst; symmetry; [apply or_and_absorb|apply or_and_absorb_r]. }
-    destruct (inner AND a) as [[x y]|] eqn:I2.
-    { brk; [|dflt]. apply inner_eq in I2. subst a. apply among_cases in E2. cbn [fst snd] in E2.
-      split; [exact Hb|]. cbn [evalw eval_op2]. rewrite (or_comm (wand (ev x) (ev y))).
-      destruct E2; subst; symmetry; [apply or_and_absorb|apply or_and_absorb_r]. }
-    destruct (inner OR b) as [[x y]|] eqn:I3.
-    { brk; [|dflt]. apply inner_eq in I3. subst b. apply among_cases in E2. cbn [fst snd] in E2.
-      split; [exact Hb|]. cbn [evalw eval_op2]. destruct E2; subst; symmetry; [apply or_or_absorb_l|apply or_or_absorb_r]. }
-    destruct (inner OR a) as [[x y]|] eqn:I4; [|dflt].
-    brk; [|dflt]. apply inner_eq in I4. subst a. apply among_cases in E2. cbn [fst snd] in E2.
-    split; [exact Ha|]. cbn [evalw eval_op2]. rewrite (or_comm (wor (ev x) (ev y))).
-    destruct E2; subst; symmetry; [apply or_or_absorb_l|apply or_or_absorb_r].
+    change [ro_and_r a b; ro_and_l a b; ro_or_r a b; ro_or_l a b]
+      with (map (fun rl => rl a b) [ro_and_r; ro_and_l; ro_or_r; ro_or_l]).
+    destruct (first_some _) as [t|] eqn:F; [|dflt].
+    apply (first_rule_ok OR [ro_and_r; ro_and_l; ro_or_r; ro_or_l] a b t); try assumption.
+    repeat (apply Forall_cons; [first [apply ro_and_r_ok|apply ro_and_l_ok|apply ro_or_r_ok|apply ro_or_l_ok]|]).
+    apply Forall_nil.
+  Qed.
+
+  (* --- XOR ------------------------------------------------------------------- *)
+  Lemma rx_r_ok : rule_ok XOR rx_r.
+  Proof.
+    intros a b t Ha Hb. unfold rx_r. destruct (inner XOR b) as [[x y]|] eqn:I; [|discriminate].
+    apply inner_eq in I. subst b. sorts.
+    destruct (term_eqb a x) eqn:E1.
+    - intros Hq; inversion Hq; subst t. facts. split; [assumption|]. cbn [evalw eval_op2]. symmetry. apply xor_xor_cancel.
+    - destruct (term_eqb a y) eqn:E2; [|discriminate]. intros Hq; inversion Hq; subst t. facts.
+      split; [assumption|]. cbn [evalw eval_op2]. symmetry. apply xor_xor_cancel_r.
+  Qed.
+  Lemma rx_l_ok : rule_ok XOR rx_l.
+  Proof.
+    intros a b t Ha Hb. unfold rx_l. destruct (inner XOR a) as [[x y]|] eqn:I; [|discriminate].
+    apply inner_eq in I. subst a. sorts.
+    destruct (term_eqb b x) eqn:E1.
+    - intros Hq; inversion Hq; subst t. facts. split; [assumption|]. cbn [evalw eval_op2].
+      rewrite (xor_comm (wxor _ _)). symmetry. apply xor_xor_cancel.
+    - destruct (term_eqb b y) eqn:E2; [|discriminate]. intros Hq; inversion Hq; subst t. facts.
+      split; [assumption|]. cbn [evalw eval_op2]. rewrite (xor_comm (wxor _ _)). symmetry. apply xor_xor_cancel_r.
   Qed.
 
   Lemma s_xor_ok a b : wsort a = true -> wsort b = true -> ok (s_xor a b) (eval_op2 XOR (ev a) (ev b)).
   Proof.
     start2 s_xor. brk; facts; [by_lemma xor_diag|]. brk; facts; [by_lemma xor_0_l|].
-    destruct (inner XOR b) as [[x y]|] eqn:I1.
-    { apply inner_eq in I1. subst b. sorts. brk; facts.
-      - split; [assumption|]. cbn [evalw eval_op2]. symmetry. apply xor_xor_cancel.
-      - brk; facts; [|dflt]. split; [assumption|]. cbn [evalw eval_op2]. symmetry. apply xor_xor_cancel_r. }
-    destruct (inner XOR a) as [[x y]|] eqn:I2; [|dflt].
-    apply inner_eq in I2. subst a. sorts. brk; facts.
-    - split; [assumption|]. cbn [evalw eval_op2]. rewrite (xor_comm (wxor _ _)). symmetry. apply xor_xor_cancel.
-    - brk; facts; [|dflt]. split; [assumption|]. cbn [evalw eval_op2]. rewrite (xor_comm (wxor _ _)). symmetry. apply xor_xor_cancel_r.
+    change [rx_r a b; rx_l a b] with (map (fun rl => rl a b) [rx_r; rx_l]).
+    destruct (first_some _) as [t|] eqn:F; [|dflt].
+    apply (first_rule_ok XOR [rx_r; rx_l] a b t); try assumption.
+    repeat (apply Forall_cons; [first [apply rx_r_ok|apply rx_l_ok]|]).
+    apply Forall_nil.
   Qed.
 
   Lemma both_const_eq a b x y : both_const a b = Some (x, y) -> a = TConst x /\ b = TConst y.
